@@ -43,6 +43,6 @@ int read_bin(const char *filename, Memory *memory, uint32_t start_address)
   memory->low_address = start_address;
   memory->high_address = address - 1;
 
-  return start_address;
+  return 0;
 }
 
